@@ -14,4 +14,5 @@ CONSTANTS
   DrainMode = "raw"
   Strict = TRUE
   WithServe = TRUE
+  Hist = FALSE
 PROPERTIES C18_Terminates C18_ServeReturns
